@@ -27,7 +27,7 @@ func init() {
 		Phases: func(tier string, seed int64) []Phase {
 			return []Phase{{Name: "pipelines", Run: c06Run}}
 		},
-		MinObserved: []string{"requests_numbered", "requests_dispatched_while_an_earlier_handler_had_been_blocked_for_more_than_a_second", "rendezvous_satisfied", "cross_connection_rendezvous_satisfied", "pipelines_with_starttls_upgrade", "pipelines_with_a_handler_blocked_in_write", "requests_served_through_the_default_route", "pipelines_with_repeated_message_ids", "connections_served_while_another_connections_handler_is_blocked", "fire_and_forget_pipelines", "pipelines_on_a_server_without_panic_recovery", "connections_with_a_handler_outliving_the_read_timeout", "pipelines_over_a_tls_listener", "pipelines_on_a_server_with_a_read_timeout", "extended_requests_under_well_known_names", "requests_carrying_a_100kb_value", "runs_with_more_than_a_thousand_handlers_blocked_at_once"},
+		MinObserved: []string{"requests_numbered", "requests_dispatched_while_an_earlier_handler_had_been_blocked_for_more_than_a_second", "rendezvous_satisfied", "cross_connection_rendezvous_satisfied", "pipelines_with_starttls_upgrade", "pipelines_with_a_handler_blocked_in_write", "requests_served_through_the_default_route", "pipelines_with_repeated_message_ids", "connections_served_while_another_connections_handler_is_blocked", "fire_and_forget_pipelines", "pipelines_on_a_server_without_panic_recovery", "connections_with_a_handler_outliving_the_read_timeout", "pipelines_over_a_tls_listener", "pipelines_on_a_server_with_a_read_timeout", "extended_requests_under_well_known_names", "requests_carrying_a_100kb_value", "runs_with_more_than_a_thousand_handlers_blocked_at_once", "routes_registered_while_a_handler_was_parked"},
 	})
 }
 
@@ -882,7 +882,9 @@ func c06ManyBlockedHandlers(c *Ctx, r *Rand, idx int) {
 func c06OtherConnections(c *Ctx, r *Rand, idx int) {
 	gate := make(chan struct{})
 	var parked atomic.Int64
+	var mux *gldap.Mux
 	srv, err := startSrv(SrvCfg{}, func(m *gldap.Mux) {
+		mux = m
 		m.Search(func(w *gldap.ResponseWriter, req *gldap.Request) {
 			parked.Add(1)
 			select {
@@ -944,6 +946,10 @@ func c06OtherConnections(c *Ctx, r *Rand, idx int) {
 		return
 	}
 	ending := pick(r, []string{"fin", "reset", "unbind", "malformed", "stays", "starttls-queued", "starttls-queued"})
+	if idx%2 == 1 {
+		// these rounds register a route further down, at a moment when nothing is being routed: no queued StartTLS
+		ending = pick(r, []string{"fin", "reset", "unbind", "malformed", "stays"})
+	}
 	switch ending {
 	case "fin":
 		a.Close()
@@ -960,6 +966,24 @@ func c06OtherConnections(c *Ctx, r *Rand, idx int) {
 	}
 	time.Sleep(time.Duration(1+r.Intn(20)) * time.Millisecond)
 	det := map[string]any{"ending_of_the_connection_with_the_blocked_handler": ending}
+	if idx%2 == 1 && mux != nil {
+		// the application adds a route to the running Mux at a moment when nothing is being routed (the one handler
+		// that runs is parked, no request is on its way): whatever that registration has to wait for, later requests
+		// are still dispatched while the parked handler stays parked
+		reg := make(chan struct{})
+		go func() {
+			defer close(reg)
+			mux.Modify(func(w *gldap.ResponseWriter, req *gldap.Request) {
+				w.Write(req.NewModifyResponse(gldap.WithResponseCode(0)))
+			})
+		}()
+		select {
+		case <-reg:
+		case <-time.After(2 * time.Second):
+		}
+		det["route_registered_while_the_handler_was_parked"] = true
+		c.Count("routes_registered_while_a_handler_was_parked", 1)
+	}
 	fail := func(what string, err error) {
 		c.Violate("a blocked handler delays other connections", fmt.Sprintf("a handler of a connection that ended by %q is still blocked; %s: %v", ending, what, err), det)
 	}
